@@ -4,27 +4,41 @@
 (* kernels (c/dynmat.c: get_dynmat_want, get_dd) and of the callers          *)
 (* (Phonopy.run_qpoints -> run_dynamical_matrix_solver_c, band structure).   *)
 (*                                                                          *)
-(* Abstract inputs: qZero (|q| < tolerance), dir in {"none", "given"} (a     *)
-(* non-zero direction or none), the call route and the method.  Outcome:    *)
+(* LENGTHS are Cartesian, in 1/Angstrom, compared with the documented        *)
+(* tolerance DynamicalMatrixNAC.Q_DIRECTION_TOLERANCE = 1e-5 (the harness    *)
+(* reads the constant from the module).  Abstract inputs:                    *)
+(*   qlen in {"zero", "tiny", "finite"}:  |q| < tolerance;  tolerance < |q|  *)
+(*         <= 1e-2;  a generic q;                                            *)
+(*   dir  in {"none", "given"} and, for a given direction, its length class  *)
+(*   dlen in {"above", "below"}:  |n| > tolerance - the direction selects    *)
+(*         the direction-dependent term, WHATEVER its length (the limit term *)
+(*         is homogeneous of degree 0 in n); |n| < tolerance means "no       *)
+(*         direction" (DynamicalMatrixNAC.run only, at the zone centre).     *)
+(* Outcome:                                                                  *)
 (*   "plain" - no correction,                                                *)
 (*   "Kdir"  - the zone-centre limit along the given direction,              *)
-(*   "Kq"    - the method's correction computed from q itself.               *)
+(*   "Kq"    - the method's correction computed from q itself (for a tiny q  *)
+(*             this is the analytic term along q).                           *)
 (* One action per step of the code.                                          *)
 EXTENDS TLC, FiniteSets
 
-CONSTANT Observed   \* set of [route, method, qZero, dir, outcome] recorded from the implementation ({} in model runs)
+CONSTANT Observed   \* set of [route, method, qlen, dir, dlen, scale, outcome] recorded from the implementation
 
 Routes == {"dmrun", "solver", "band"}
 Methods == {"wang", "gonze"}
 Dirs == {"none", "given"}
+QLens == {"zero", "tiny", "finite"}
+DLens == {"above", "below"}
 
-VARIABLES pc, route, method, qZero, dir, passedDir, outcome
-vars == <<pc, route, method, qZero, dir, passedDir, outcome>>
+VARIABLES pc, route, method, qlen, dir, dlen, passedDir, outcome
+vars == <<pc, route, method, qlen, dir, dlen, passedDir, outcome>>
 
 Init ==
-  /\ pc = "call" /\ route \in Routes /\ method \in Methods /\ qZero \in BOOLEAN /\ dir \in Dirs
+  /\ pc = "call" /\ route \in Routes /\ method \in Methods /\ qlen \in QLens /\ dir \in Dirs /\ dlen \in DLens
   /\ passedDir = "none" /\ outcome = "none"
   /\ (route = "band" => dir = "given")      \* a band path through the zone centre always defines a direction
+  /\ (dir = "none" => dlen = "above")       \* no direction: the length class is immaterial
+  /\ (dlen = "below" => (route = "dmrun" /\ qlen = "zero"))   \* domain of the statement about short directions
 
 (* the caller decides what to hand down *)
 Caller ==
@@ -33,41 +47,43 @@ Caller ==
   /\ pc' = CASE route = "dmrun" -> "dmrun"           \* DynamicalMatrixNAC.run(q, q_direction)
              [] route = "band" -> "dmrun"            \* BandStructure._solve_dm_on_path: run(q, q_direction=path[0]-path[-1])
              [] route = "solver" -> "kernel"         \* run_qpoints (OpenMP build): straight to the compiled solver
-  /\ UNCHANGED <<route, method, qZero, dir, outcome>>
+  /\ UNCHANGED <<route, method, qlen, dir, dlen, outcome>>
 
-(* DynamicalMatrixNAC.run: the norm tested is that of the direction when one is given, of q otherwise *)
+(* DynamicalMatrixNAC.run: the LENGTH (not its square) of the direction when one is given, of q otherwise, *)
+(* is compared with the tolerance                                                                           *)
 DMRun ==
   /\ pc = "dmrun"
-  /\ LET small == IF passedDir = "none" THEN qZero ELSE FALSE     \* a given direction is non-zero
+  /\ LET small == IF passedDir = "none" THEN qlen = "zero" ELSE dlen = "below"
      IN  IF small THEN /\ outcome' = "plain" /\ pc' = "done"
                   ELSE /\ outcome' = outcome /\ pc' = "kernel"
-  /\ UNCHANGED <<route, method, qZero, dir, passedDir>>
+  /\ UNCHANGED <<route, method, qlen, dir, dlen, passedDir>>
 
 (* get_dynmat_want / get_dd: the direction is looked at only where |q| (resp. |q + G|) is below the tolerance *)
 Kernel ==
   /\ pc = "kernel"
-  /\ outcome' = IF qZero THEN (IF passedDir = "given" THEN "Kdir" ELSE "plain") ELSE "Kq"
+  /\ outcome' = IF qlen = "zero" THEN (IF passedDir = "given" THEN "Kdir" ELSE "plain") ELSE "Kq"
   /\ pc' = "done"
-  /\ UNCHANGED <<route, method, qZero, dir, passedDir>>
+  /\ UNCHANGED <<route, method, qlen, dir, dlen, passedDir>>
 
 Next == Caller \/ DMRun \/ Kernel
 Spec == Init /\ [][Next]_vars
 
 -----------------------------------------------------------------------------
-(* requirement *)
-Required(qz, d) == IF qz THEN (IF d = "given" THEN "Kdir" ELSE "plain") ELSE "Kq"
+(* requirement: a direction counts iff it is longer than the tolerance; nothing else about its length matters *)
+Effective(d, dl) == IF d = "given" /\ dl = "above" THEN "given" ELSE "none"
+Required(ql, d, dl) == IF ql = "zero" THEN (IF Effective(d, dl) = "given" THEN "Kdir" ELSE "plain") ELSE "Kq"
 
-ReqSwitch == pc = "done" => outcome = Required(qZero, dir)
+ReqSwitch == pc = "done" => outcome = Required(qlen, dir, dlen)
 (* a direction is used only at the zone centre *)
-ReqDirectionOnlyAtGamma == (pc = "done" /\ outcome = "Kdir") => qZero
+ReqDirectionOnlyAtGamma == (pc = "done" /\ outcome = "Kdir") => qlen = "zero"
+(* a tiny but non-zero q is not the zone centre: the correction is there *)
+ReqTinyQCorrected == (pc = "done" /\ qlen = "tiny") => outcome = "Kq"
 
-(* the implementation's recorded outcomes: requirement on them, and agreement with the machine *)
-ImplSwitch == pc = "done" => \A o \in Observed : o.outcome = Required(o.qZero, o.dir)
-ConformsSwitch ==
-  pc = "done" => \A o \in Observed :
-     (o.route = route /\ o.method = method /\ o.qZero = qZero /\ o.dir = dir) => o.outcome = outcome
+(* the implementation's recorded outcomes (every rung of the length ladder is one observation): requirement *)
+(* on them, and agreement with the machine                                                                 *)
+ImplSwitch == pc = "done" => \A o \in Observed : o.outcome = Required(o.qlen, o.dir, o.dlen)
+Match(o) == o.route = route /\ o.method = method /\ o.qlen = qlen /\ o.dir = dir /\ o.dlen = dlen
+ConformsSwitch == pc = "done" => \A o \in Observed : Match(o) => o.outcome = outcome
 (* every cell of the table was observed *)
-ObservedComplete ==
-  pc = "done" => Observed = {} \/ \A r \in Routes, m \in Methods, qz \in BOOLEAN, d \in Dirs :
-     (r = "band" => d = "given") => \E o \in Observed : o.route = r /\ o.method = m /\ o.qZero = qz /\ o.dir = d
+ObservedComplete == pc = "done" => (Observed = {} \/ \E o \in Observed : Match(o))
 =============================================================================
